@@ -1,7 +1,8 @@
 import Ufo2ftModel.Basic
 /-!
 Model of ufo2ft's MarkFeatureWriter (featureWriters/markFeatureWriter.py) for static fonts without
-contextual-anchor lib data and without pre-existing mark features / markClass definitions:
+contextual-anchor lib data and without pre-existing mark features (hand-written markClass definitions of the feature
+file are the input `pre`):
 
   parseAnchorName, NamedAnchor.__init__, BaseFeatureWriter._getAnchor (quantize), _getAnchorLists,
   _getAnchorPairs, _pruneUnusedAnchors, _groupMarkGlyphsByAnchor, _makeMarkClassDefinitions,
@@ -93,6 +94,8 @@ structure Input where
   glyphs : List SrcGlyph      -- the ordered glyph set
   gdef : Option Gdef          -- GDEF classes (feature file table or public.openTypeCategories), if any
   quant : Q                   -- options.quantization
+  pre : List (String × List (String × Int × Int)) := []
+                              -- feaFile.markClasses before the writer runs: hand-written `markClass g <anchor x y> @name;`
   group : Bool                -- options.groupMarkClasses
   abvm : List String          -- _getAbvmGlyphs()[0]
   notAbvm : List String       -- _getAbvmGlyphs()[1]
@@ -246,8 +249,27 @@ def defineGroup (members : List (String × NA)) (cn : String) (st : ClsState) : 
     let r := defineMarkClass ⟨gm.1, otRound gm.2.x, otRound gm.2.y⟩ s.2 s.1.classes
     (⟨r.1, aset gm.2.key r.2 s.1.keyMap⟩, r.2)) (st, cn)
 
-def makeClasses (me : AList) : ClsState :=
-  (groupNames me).foldl (fun st n => (defineGroup (groupOf me n) (sanitize ("MC" ++ n)) st).1) ⟨[], []⟩
+/-- the clash test at the head of the group loop of _makeMarkClassDefinitions: when the class `cn` exists and already
+    defines one of the group's mark glyphs with a different anchor, the whole group goes into a fresh unique class -/
+def groupClassName (members : List (String × NA)) (cn : String) (cl : Classes) : String :=
+  match alookup cn cl with
+  | none => cn
+  | some ms =>
+    if members.any (fun gm => match ms.find? (fun r' => r'.glyph == gm.1) with
+        | some r' => !(r'.x == otRound gm.2.x && r'.y == otRound gm.2.y)
+        | none => false)
+    then uniqueName cn cl (cl.length + 1) 1 else cn
+
+/-- _makeMarkClassDefinitions, starting from the mark classes the feature file already defines -/
+def makeClassesFrom (cl0 : Classes) (me : AList) : ClsState :=
+  (groupNames me).foldl (fun st n =>
+    (defineGroup (groupOf me n) (groupClassName (groupOf me n) (sanitize ("MC" ++ n)) st.classes) st).1) ⟨cl0, []⟩
+
+def makeClasses (me : AList) : ClsState := makeClassesFrom [] me
+
+/-- the hand-written mark classes of the feature file -/
+def preClasses (pre : List (String × List (String × Int × Int))) : Classes :=
+  pre.map (fun c => (c.1, c.2.map (fun r => (⟨r.1, r.2.1, r.2.2⟩ : MarkRec))))
 
 /-- _setBaseAnchorMarkClasses: the class (name) a non-mark anchor refers to -/
 def classOf (km : List (String × String)) (a : NA) : Option String :=
@@ -427,7 +449,7 @@ def build (i : Input) (al0 : AList) : Program :=
   let al := prune al0
   let me := markEntries i al mn
   let mg := me.map (·.1)
-  let st := makeClasses me
+  let st := makeClassesFrom (preClasses i.pre) me
   let km := st.keyMap
   let ba := baseAtts i al mg km
   let la := ligAtts i al mg km
